@@ -103,7 +103,23 @@ void build_seeds(uint64_t seed) {
             mdl::GenOpts go;
             go.charset = f.cs; go.allow_changesets = f.cs_ok; go.allow_discussions = f.disc; go.history = f.hist; go.changeset_u32_max = false;
             go.valid_locations_only = true; go.max_string = size ? 40 : 8; go.max_tags = size ? 4 : 2; go.max_nodes = 4; go.max_members = 3;
-            const auto D = mdl::gen_dataset(rng, go, size ? 25 : 4);
+            auto D = mdl::gen_dataset(rng, go, size ? 25 : 4);
+            if (size && !f.cs_ok) {
+                // a relation with many members and long roles, a way with many nodes, an object with many tags:
+                // with small parser buffers the buffer has to grow inside every kind of sub-builder call
+                mdl::Obj r = mdl::gen_object(rng, go, mdl::RELATION);
+                r.members.clear();
+                for (int m = 0; m < 40; ++m) r.members.push_back(mdl::Member{1 + m % 3, 1000 + m, std::string(static_cast<size_t>(5 + (m * 37) % 200), 'r')});
+                D.push_back(r);
+                mdl::Obj w = mdl::gen_object(rng, go, mdl::WAY);
+                w.nodes.clear();
+                for (int n = 0; n < 300; ++n) w.nodes.push_back(mdl::NodeRef{5000 + n, mdl::UNDEF, mdl::UNDEF});
+                D.push_back(w);
+                mdl::Obj t = mdl::gen_object(rng, go, mdl::NODE);
+                t.tags.clear();
+                for (int k = 0; k < 60; ++k) t.tags.push_back(mdl::Tag{"key" + std::to_string(k), std::string(static_cast<size_t>(1 + (k * 13) % 90), 'v')});
+                D.push_back(t);
+            }
             mdl::Header H = mdl::gen_header(rng, f.cs);
             if (H.generator.size() > 20) H.generator = "gen";
             g_seeds.push_back(Seed{f.fmt, std::string(f.opts) + (size ? " medium" : " tiny"), write(f.opts, D, H)});
